@@ -2516,22 +2516,28 @@ class ResetIndex(Elemwise):
                 for p in dependents[self._name]
                 if p() is not None and not isinstance(p(), Filter)
             ]
-            predicate = None
+            predicate = parent.predicate
             if not set(flatten(parents, list)).issubset(set(self.frame.columns)):
                 # one of the filters is the Index
-                name = self.operand("name") or self.frame._meta.index.name
-                if name is no_default and self.frame._meta.index.name is None:
-                    name = "index"
-                elif self.frame._meta.index.name is not None:
-                    name = self.frame._meta.index.name
+                if self.operand("drop") or self.frame._meta.index.nlevels > 1:
+                    return
+                # the column made from the index comes first ("index", "level_0"
+                # or the name of the index)
+                name = self._meta.columns[0]
                 # replace the projection of the former index with the actual index
                 subs = Projection(self, name)
-                predicate = parent.predicate.substitute(subs, Index(self.frame))
-            elif self.frame.ndim == 1 and not self.operand("drop"):
-                name = self.frame._meta.name
+                predicate = predicate.substitute(subs, Index(self.frame))
+            if self.frame.ndim == 1 and not self.operand("drop"):
+                name = self._meta.columns[-1]
                 # Avoid Projection since we are already a Series
                 subs = Projection(self, name)
-                predicate = parent.predicate.substitute(subs, self.frame)
+                predicate = predicate.substitute(subs, self.frame)
+            # the other columns are read from the frame below as well
+            predicate = predicate.substitute(self, self.frame)
+            if any(isinstance(e, ResetIndex) for e in predicate.walk()):
+                # still reads rows under their new index, e.g. through a
+                # selection that was pushed below another reset_index node
+                return
             return self._filter_simplification(parent, predicate)
 
         if isinstance(parent, Projection):
